@@ -176,7 +176,7 @@ def s_tok(tier, seed, out):
 
 # ordinary (non-number) context words; the tail of each list holds awkward ones: digit-leading words (letters after a
 # digit), and compounds made only of zero words (the interpreter's sub-group is then all leading zeros, empty buffer)
-_ODD = ["2nd", "3D", "4x4", "5kg", "10h"]
+_ODD = ["2nd", "3D", "4x4", "5kg", "10h", "s", "e", "ss", "7", "34", "2023", "12-34"]
 _SEPWORDS = ["point", "virgule", "coma", "vírgula", "virgola", "komma"]
 ORDINARY = {
     "en": ["cat", "dogs", "the", "house", "went", "Oscar", "s", "c"] + _ODD + ["zero-zero", "o-o", "nought-zero"],
@@ -196,7 +196,7 @@ for _l in ORDINARY:
 _OWN = {"en": ["point"], "fr": ["virgule"], "es": ["coma"], "pt": ["vírgula"], "it": ["virgola"], "de": ["komma"], "nl": ["komma"]}
 for _l in ORDINARY:
     ORDINARY[_l] += [w for w in _SEPWORDS if w not in _OWN[_l]]
-SEPS = [" ", " ", " ", ", ", ". ", "; ", ": ", " - ", "-", " ", "  ", "\t", " . ", "! ", "? ", " (", ") ", "\n", ".", "\u00ad", " \u200b", "\ufeff ", "\u2060", "\u2010", "\u2011", "\u2013", "\u2014", "\u00b7", "\u2027", "/", "\u2026", " \u2013 "]
+SEPS = [" ", " ", " ", ", ", ". ", "; ", ": ", " - ", "-", " ", "  ", "\t", " . ", "! ", "? ", " (", ") ", "\n", ".", "\u00ad", " \u200b", "\ufeff ", "\u2060", "\u2010", "\u2011", "\u2013", "\u2014", "\u00b7", "\u2027", "/", "\u2026", " \u2013 ", "\u0001", " \u0000 ", "\u001f", "\u0008 "]
 DECSEP = {"en": "point", "fr": "virgule", "es": "coma", "pt": "vírgula", "it": "virgola", "de": "Komma", "nl": "komma"}
 
 _bank_cache = {}
@@ -329,8 +329,8 @@ def s_annot(tier, seed, out):
     """neighbour templates for the two annotators"""
     rng = SplitMix64(seed ^ 0x4242)
     n = 0
-    en_n = ["o", "eight", "twenty", "first", "cat", ",", ".", "and", "hundred", "O", "zero", "thirty-one", "x-y", "-"]
-    fr_n = ["neuf", "un", "le", "du", "l'", "numéro", "vingt", "cent", "chat", "virgule", "et", ",", ".", "dix-neuf", "vélo"]
+    en_n = ["o", "eight", "twenty", "first", "cat", ",", ".", "and", "hundred", "O", "zero", "thirty-one", "x-y", "-", "7", "\u0001", "s"]
+    fr_n = ["neuf", "un", "le", "du", "l'", "numéro", "vingt", "cent", "chat", "virgule", "et", ",", ".", "dix-neuf", "vélo", "7", "34", "\u0001", "s"]
     ws_kinds = [" ", "  ", " ", "\t", " ", ""]
     for lang, pool in (("en", en_n), ("fr", fr_n)):
         for k in range(1, 4 if tier != "thorough" else 5):
